@@ -41,6 +41,10 @@ def monitor_models(rep, pid, n, ndates=4, opts=None, mode="exact", known=None):
             # every third model: travel-time, decaying, pull-only, push-only, sewer and weir arcs where the link allows
             o["arc_mix"] = 0.4
             stats["with_mixed_arc_classes"] += 1
+        if (i // 4) % 3 == 1:
+            # every fourth model: parameters changed through apply_overrides between building and running
+            o["overrides"] = True
+            stats["with_overrides"] = stats.get("with_overrides", 0) + 1
         cfg = NG.gen_model(random.Random(seed), ndates=ndates, size=size, opts=o)
         for a in cfg["arcs"]:
             stats["arc_classes"][a["type_"]] = stats["arc_classes"].get(a["type_"], 0) + 1
